@@ -15,7 +15,7 @@ import (
 )
 
 var c09Floor = []string{"key", "key.missing", "key.on-array", "key.quoted", "key.quoted.steplike", "index", "index.multi", "each", "each.flatten", "keep", "range", "range.begin", "range.end",
-	"pipe", "pipe.string", "pipe.number", "pipe.on-array", "continue", "fn.mix", "fn.distinct", "fn.custom", "err.index-oob", "err.range-oob", "err.shape", "err.fn", "null.path", "readme.form"}
+	"pipe", "pipe.string", "pipe.number", "pipe.on-array", "continue", "fn.mix", "fn.distinct", "fn.custom", "err.index-oob", "err.index-negative", "err.range-oob", "err.shape", "err.fn", "null.path", "readme.form"}
 
 func init() {
 	genql.RegisterTopLevelFunction("vsize", func(v any) (any, error) {
@@ -308,12 +308,17 @@ func c09Selector(c *fw.Case, doc map[string]any, force string, feats *[]string) 
 					if c.Chance(0.3) {
 						idx = l
 					}
+					if c.Chance(0.3) {
+						// below the array as well: a sign must not get lost
+						idx = -1 - c.Intn(3)
+						feat("err.index-negative")
+					}
 					errPlaced = true
 					feat("err.index-oob")
 				}
 				st.Dims = append(st.Dims, ref.Dim{Kind: ref.DimIndex, I: idx})
 				feat("index")
-				if idx < l {
+				if idx >= 0 && idx < l {
 					cur = ca[idx]
 				} else {
 					cur = nil
